@@ -236,6 +236,25 @@ theorem kick_count_exact (ops : List (Op Id)) (id : Id) :
       rwa [pendingAfter_eq] at this)
     simpa using this
 
+/-! #### "refused ⇒ disconnected": where the code does it
+
+The theorems here are about the stats server: `LogTraffic` returning `false` exactly once per
+kick.  That the refusal also ends the client's QUIC connection (so that `finish` follows and
+`server_online_census` takes the user off the list) is done by the CALLERS in core/server, at
+every place a report is made:
+* TCP relay, both directions: `copyTwoWayEx` → `copyBufferLog` turns `false` into
+  `errDisconnect`; the logger it is given is `&tcpTrafficLogger{…}`, whose `LogTraffic` calls
+  `Conn.CloseWithError` itself when the inner logger refuses (D11: copy.go only returns the
+  first direction's result);
+* UDP upstream (client → remote): `udpIOImpl.ReceiveMessage` — `CloseWithError`, then
+  `errDisconnect` (which alone only stops the session manager: `go sm.Run()` drops it);
+* UDP downstream (remote → client): `udpIOImpl.SendMessage` — the same.
+The table below is recomputed from core/server's AST on every run; the loopback scenarios
+`kickudpup / kickudpdown / kicktcpup / kicktcpdown` exercise each site. -/
+theorem gen_refusal_closes_connection :
+    Gen.c15_refusal_sites = "copyTwoWayEx:returns-l;copyTwoWayEx:returns-l;tcpTrafficLogger.LogTraffic:closes;udpIOImpl.ReceiveMessage:closes;udpIOImpl.SendMessage:closes" ∧
+    Gen.c15_copytwoway_loggers = "handleTCPRequest:tcpTrafficLogger" := ⟨rfl, rfl⟩
+
 /-- a refused report is not counted, touches nothing but the kick entry, and consumes it -/
 theorem refused_not_counted (s : St Id) (id : Id) (tx rx : Nat)
     (h : (logTraffic s id tx rx).2 = false) :
